@@ -213,6 +213,42 @@ func init() {
 					checkControl(c, fmt.Sprintf("%s(system=%x)", ctlCtors[d[1]], sysAlphabet[d[0]]), m, want)
 					c.Case(0, true, "sys:"+ctlCtors[d[1]])
 				}})
+			// two messages encoded in turn: the bytes obtained for the first one (what a caller queues for sending)
+			// still are the first message after the second one has been encoded, decoded or had its bytes overwritten
+			sp = append(sp, h.Space{Name: "two-messages-encoded-in-turn", Count: product(len(ctlCtors), len(ctlCtors), 3),
+				Describe: func(i uint64) interface{} {
+					d := unrank(i, len(ctlCtors), len(ctlCtors), 3)
+					return fmt.Sprintf("%s encoded, then %s %s", ctlCtors[d[0]], ctlCtors[d[1]], []string{"encoded", "encoded and decoded", "encoded and its bytes overwritten"}[d[2]])
+				},
+				Run: func(c *h.Ctx, i uint64) {
+					d := unrank(i, len(ctlCtors), len(ctlCtors), 3)
+					m1, w1 := makeCtl(ctlCtors[d[0]], 0x1234, []byte{1, 2, 3, 4}, 1, 0x80, 5)
+					m2, w2 := makeCtl(ctlCtors[d[1]], 0xA55A, []byte{0xF1, 0xF2, 0xF3, 0xF4}, 3, 9, 0x77)
+					what := fmt.Sprintf("%s then %s (variant %d)", ctlCtors[d[0]], ctlCtors[d[1]], d[2])
+					b1 := m1.ToBytes()
+					b2 := m2.ToBytes()
+					switch d[2] {
+					case 1:
+						hsms.Parse(b2)
+					case 2:
+						for j := range b2 {
+							b2[j] ^= 0xFF
+						}
+						if cap(b2) > len(b2) {
+							ext := b2[:cap(b2)]
+							for j := len(b2); j < len(ext); j++ {
+								ext[j] ^= 0xFF
+							}
+						}
+					}
+					c.Ops(3)
+					if want := append([]byte{0, 0, 0, 10}, w1...); !bytes.Equal(b1, want) {
+						c.Fail("earlier-bytes-changed", what, fmt.Sprintf("bytes obtained from the first message now read %x, they were %x", b1, want))
+					}
+					checkControl(c, what+": first message again", m1, w1)
+					checkControl(c, what+": second message again", m2, w2)
+					c.Case(0, true, "in-turn")
+				}})
 			// responses refuse requests of the wrong kind; echo session+system of the right one
 			reqKinds := []string{"select.req", "select.rsp", "deselect.req", "deselect.rsp", "linktest.req", "linktest.rsp", "reject.req", "separate.req",
 				"raw:select.req", "raw:deselect.req", "raw:linktest.req", "data message", "undefined:ptype1", "undefined:stype0", "undefined:stype8", "undefined:stype255"}
